@@ -178,6 +178,43 @@ def anchor_rule(ctx, tbl):
           lambda x: 'year %d, new moon %d day(s) before the solstice day' % x, fn_site(p, 'LunarMonth::new'))
 
 
+def fit_rule(ctx):
+    """Every lunation served by the fitted-segment branch of calc_shuo has 29 or 30 days.
+
+    For Julian dates inside [SHUO_KB[0]-14, SHUO_KB[last]-14) the new-moon day is a pure function of the literal table
+    (epoch + rate * floor(..), rounded): no series value is involved.  The branch is evaluated at two seeds per lunation over
+    its whole range; successive distinct results must be 29 or 30 days apart - also across the joins of two segments, which is
+    where a fitted table can go wrong.  Only the supported range (lunar year -1 on) is judged."""
+    from rlib import pmap
+    import calendar_oracle as CAL
+    p = ctx.prog
+    ctx.rule('TABLES-FIT', 'fitted new-moon table: successive new-moon days it serves are 29 or 30 days apart over its whole range, segment joins included')
+    I2 = ctx.interp(fuel=10 ** 10)
+    I2.forbidden.discard('ShouXingUtil::*')
+    for name in p.inherent.get('ShouXingUtil', {}):
+        if name != 'calc_shuo':
+            I2.forbidden.add('ShouXingUtil::' + name)       # the series stay out of reach: only the table branch may be evaluated
+    F = fn_site(p, 'ShouXingUtil::calc_shuo')['file'] if isinstance(fn_site(p, 'ShouXingUtil::calc_shuo'), dict) else 'src/tyme/util.rs'
+    try:
+        kb = py(I2.static('SHUO_KB', 'src/tyme/util.rs'))
+        f1, f2 = kb[0] - 14.0, kb[-1] - 14.0
+        lo = max(f1 + 1.0, CAL.jdn(1, 1, 1) - 400.0)
+        n = int((f2 - lo) / 29.5306 * 2)
+        seeds = [lo + 29.5306 / 2 * k - 2451545.0 for k in range(n) if lo + 29.5306 / 2 * k < f2 - 1.0]
+        vals = pmap(lambda s_: I2.call('ShouXingUtil::calc_shuo', [s_]), seeds)
+    except (Unanalysable, Bottom) as u:
+        ctx.unanalysable('TABLES-FIT', 'FIT:calc_shuo', str(u))
+        return
+    ds = sorted(set(vals))
+    bad = [(int(ds[i] + 2451545), int(ds[i + 1] - ds[i])) for i in range(len(ds) - 1) if (ds[i + 1] - ds[i]) not in (29.0, 30.0)]
+    for (jdn, ln) in bad:
+        y, m, d = CAL.from_jdn(jdn)
+        ctx.violation('TABLES-FIT', 'FIT:calc_shuo:lunation-from-%04d-%02d-%02d' % (y, m, d),
+                      'the fitted new-moon table serves new-moon days %04d-%02d-%02d and %04d-%02d-%02d: a lunation of %d days (a lunar month has 29 or 30)'
+                      % ((y, m, d) + CAL.from_jdn(jdn + ln) + (ln,)), {'jdn': jdn, 'length': ln}, 1)
+    ctx.ok('TABLES-FIT', len(ds) - 1 - len(bad), {'table': 'SHUO_KB', 'new_moons': len(ds), 'seeds': len(seeds), 'range_jdn': [lo, f2], 'site': fn_site(p, 'ShouXingUtil::calc_shuo')})
+
+
 def chain_rule(ctx, tbl, skip_reform=False):
     """Lunar years tile only if the month-1 offsets of consecutive years agree with the month counts.
 
@@ -259,6 +296,8 @@ def run(ctx, pid='C03'):
         tbl = None
     if tbl is not None:
         chain_rule(ctx, tbl, skip_reform=(pid == 'C04'))
+    if pid == 'C03':
+        fit_rule(ctx)
     if pid == 'C04':
         from rules import shared as _sh
         ctx.include('month_records', _sh.month_records)
